@@ -136,12 +136,12 @@ func init() {
 		ID: "C14",
 		Gen: func(t *rapid.T, tier string) *world.Plan {
 			return genPlan(t, genOpts{maxCrashes: 1, maxFaults: 3, maxNet: 2, maxLN: 1, sched: true, premiums: true, layouts: true, healProb: 30, silence: true,
-				inject: []string{"cancel", "coop", "opening", "agreement-in", "agreement-out"}, maxInject: 2})
+				inject: []string{"cancel", "coop", "opening", "agreement-in", "agreement-out", "opening:bad", "coop:bad", "agreement-in:bad", "agreement-out:bad", "opening:bad"}, maxInject: 3})
 		},
 		Monitors:   world.MonitorsFor("C14"),
 		Nontrivial: func(r *world.Result) bool { return r.Probes["C14:record-checked"] > 8 },
 	})
-	junk := []string{"junk:null", "junk:null-request", "junk:null-opening", "junk:null-coop", "junk:null-agreement", "junk:empty-object", "junk:empty-object-request", "junk:array", "junk:string", "junk:number", "junk:truncated", "junk:short-id", "junk:odd-id", "junk:even-type", "junk:out-of-range", "junk:low-type", "junk:huge", "junk:deep", "junk:binary"}
+	junk := []string{"junk:null", "junk:null-request", "junk:null-opening", "junk:null-coop", "junk:null-agreement", "junk:empty-object", "junk:empty-object-request", "junk:array", "junk:string", "junk:number", "junk:truncated", "junk:short-id", "junk:odd-id", "junk:even-type", "junk:out-of-range", "junk:low-type", "junk:huge", "junk:deep", "junk:binary", "junk:over-limit-cancel", "junk:over-limit-cancel-1", "junk:over-limit-cancel-1023", "junk:over-limit-request"}
 	register(&PropDef{
 		ID: "C21",
 		Gen: func(t *rapid.T, tier string) *world.Plan {
@@ -168,7 +168,7 @@ func init() {
 		Nontrivial: func(r *world.Result) bool { return r.Probes["C23:send-scanned"] >= 3 },
 	})
 	register(&PropDef{
-		ID: "C18",
+		ID: "C18-generic-unused",
 		Gen: func(t *rapid.T, tier string) *world.Plan {
 			return genPlan(t, genOpts{sched: true, maxNet: 2, maxLN: 1, silence: true, healAlways: true, inject: []string{"cancel", "coop"}, maxInject: 2, maxCrashes: 1})
 		},
